@@ -226,6 +226,8 @@ impl FeoxStore {
                     .map_err(|_| FeoxError::InvalidNumericValue)?,
             );
             let new_value = current_value.saturating_add(delta);
+            #[cfg(feoxdb_verif)]
+            crate::verif::sched_point("increment_before_swap", 0, 0);
             let timestamp = explicit_timestamp.unwrap_or_else(|| self.get_timestamp(key));
 
             match self.hash_table.entry(key_vec.clone()) {
@@ -496,6 +498,8 @@ impl FeoxStore {
             source
         };
 
+        #[cfg(feoxdb_verif)]
+        crate::verif::sched_point("cas_before_swap", 0, 0);
         let timestamp = self.resolve_timestamp(key, timestamp);
         self.replace_record_if_current(
             &key_vec,
@@ -560,6 +564,8 @@ impl FeoxStore {
                     self.release_memory(old_size - new_size);
                 }
                 drop(entry);
+                #[cfg(feoxdb_verif)]
+                crate::verif::sched_point("replace_before_enqueue", 0, 0);
 
                 self.stats
                     .record_insert(start.elapsed().as_nanos() as u64, true);
